@@ -5,6 +5,7 @@ go 1.22
 require (
 	github.com/btcsuite/btcd/btcec/v2 v2.1.3
 	github.com/go-jose/go-jose/v3 v3.0.1
+	github.com/trustbloc/bbs-signature-go v1.0.2
 	github.com/trustbloc/did-go v1.2.1
 	github.com/trustbloc/kms-go v1.1.2
 	github.com/trustbloc/sidetree-go v0.0.0
@@ -37,7 +38,6 @@ require (
 	github.com/pquerna/cachecontrol v0.1.0 // indirect
 	github.com/spaolacci/murmur3 v1.1.0 // indirect
 	github.com/teserakt-io/golang-ed25519 v0.0.0-20210104091850-3888c087a4c8 // indirect
-	github.com/trustbloc/bbs-signature-go v1.0.2 // indirect
 	github.com/xeipuuv/gojsonpointer v0.0.0-20190905194746-02993c407bfb // indirect
 	github.com/xeipuuv/gojsonreference v0.0.0-20180127040603-bd5ef7bd5415 // indirect
 	github.com/xeipuuv/gojsonschema v1.2.0 // indirect
